@@ -45,6 +45,11 @@ pub struct XCase {
     /// the mode they were created with: the recorded mode must still be applied
     #[serde(default)]
     pub precreate: Vec<(usize, u32)>,
+    /// how the target directory is NAMED for extract(): 0 absolute; 1 "../target" from a sibling directory;
+    /// 2 "./target"; 3 "sibling_dir/../target"; 4 "." from inside the target (the process's working directory
+    /// is moved into the sandbox for the call and restored afterwards)
+    #[serde(default)]
+    pub target_form: u8,
 }
 
 pub struct Extract;
@@ -266,7 +271,8 @@ impl Scenario for Extract {
                 }
             }
         }
-        let case = XCase { entries, by_writer, seekable, policy: gen_policy_short(&mut r), fault, precreate };
+        let target_form = if rs.chance(1, 4) { r.range(1, 4) as u8 } else { 0 };
+        let case = XCase { entries, by_writer, seekable, policy: gen_policy_short(&mut r), fault, precreate, target_form };
         serde_json::to_value(case).unwrap_or(Value::Null)
     }
 
@@ -382,20 +388,38 @@ impl Scenario for Extract {
         };
         let store = shared_from(&image);
         let mut io_h = None;
+        // the name under which the caller hands the target over (same directory, different spelling)
+        let (cwd, target_arg): (Option<PathBuf>, PathBuf) = match c.target_form {
+            1 => (Some(parent.join("sibling_dir")), PathBuf::from("../target")),
+            2 => (Some(parent.clone()), PathBuf::from("./target")),
+            3 => (Some(parent.clone()), PathBuf::from("sibling_dir/../target")),
+            4 => (Some(target.clone()), PathBuf::from(".")),
+            _ => (None, target.clone()),
+        };
+        if let Some(d) = &cwd {
+            if std::env::set_current_dir(d).is_err() {
+                force_remove(&root);
+                return Verdict::Harness(format!("cannot enter {d:?}"));
+            }
+            ctx.probe("target_named_by_a_relative_path");
+        }
         let res = guard(|| {
             if c.seekable {
                 let disk = SimDisk::new(store.clone(), pol.clone());
                 io_h = Some(disk.io.clone());
                 match ZipArchive::new(disk) {
-                    Ok(mut ar) => ar.extract(&target).map_err(|e| zerr_pub(&e)),
+                    Ok(mut ar) => ar.extract(&target_arg).map_err(|e| zerr_pub(&e)),
                     Err(e) => Err(format!("open: {}", zerr_pub(&e))),
                 }
             } else {
                 let st = SimStream::new(store.clone(), pol.clone());
                 io_h = Some(st.inner.io.clone());
-                ZipStreamReader::new(st).extract(&target).map_err(|e| zerr_pub(&e))
+                ZipStreamReader::new(st).extract(&target_arg).map_err(|e| zerr_pub(&e))
             }
         });
+        if cwd.is_some() {
+            let _ = std::env::set_current_dir("/");
+        }
         if let Some(io) = &io_h {
             ctx.absorb(io);
         }
@@ -573,6 +597,9 @@ impl Scenario for Extract {
         }
         if !c.precreate.is_empty() {
             out.push(XCase { precreate: vec![], ..c.clone() });
+        }
+        if c.target_form != 0 {
+            out.push(XCase { target_form: 0, ..c.clone() });
         }
         for i in 0..c.entries.len() {
             let e = &c.entries[i];
